@@ -291,13 +291,24 @@ struct static_array  // NOLINT(fuchsia-multiple-inheritance) : multiple inherita
 	constexpr explicit static_array(decay_type&& other) noexcept
 	: static_array(std::move(other), allocator_type{}) {}  // 6b
 
+ private:
+	template<class It>
+	static constexpr auto range_extensions_(It const& first, It const& last) -> typename static_array::extensions_type {
+		auto const count = adl_distance(first, last);
+		if(count == 0) {
+			return {};
+		}  // an empty range has no first element to take the shape from (and `first` cannot be dereferenced)
+		return index_extension(count) * multi::extensions(*first);
+	}
+
+ public:
 	template<class It, class = typename std::iterator_traits<std::decay_t<It>>::difference_type>
 	constexpr explicit static_array(It first, It last, allocator_type const& alloc)
 	:
 	array_alloc{alloc},
 	ref(
-		array_alloc::allocate(static_cast<typename multi::allocator_traits<allocator_type>::size_type>(layout_type{index_extension(adl_distance(first, last)) * multi::extensions(*first)}.num_elements())),
-		index_extension(adl_distance(first, last)) * multi::extensions(*first)
+		array_alloc::allocate(static_cast<typename multi::allocator_traits<allocator_type>::size_type>(layout_type{range_extensions_(first, last)}.num_elements())),
+		range_extensions_(first, last)
 	)
 	{
 	#if defined(__clang__) && defined(__CUDACC__)
